@@ -166,3 +166,5 @@ INFO = dict(
     outside=["cyclic machines for determinize/min_det except A-CYC", "min_det on A-D4 (does not finish)", "more than 6 symbolic weights", "IEEE rounding"],
     assumptions=["weights >= 0"],
 )
+
+INFO["technique"] = 'symbolic execution of push/trim/determinize/min_det with z3 real weights (symbolic equalities between residual weights decide the subset construction); z3 proves language equality up to the longest path; bounded'
